@@ -299,6 +299,13 @@ func (gme *GCPMultiEndpoint) UpdateMultiEndpoints(meOpts *GCPMultiEndpointOption
 	if _, ok := meOpts.MultiEndpoints[meOpts.Default]; !ok {
 		return fmt.Errorf("default MultiEndpoint %q missing options", meOpts.Default)
 	}
+	// Validate before changing anything: an empty endpoint list is rejected by
+	// MultiEndpoint, which must not happen after pools were already touched.
+	for name, meo := range meOpts.MultiEndpoints {
+		if meo == nil || len(meo.Endpoints) == 0 {
+			return fmt.Errorf("MultiEndpoint %q has an empty endpoint list", name)
+		}
+	}
 
 	validPools := make(map[string]bool)
 	for _, meo := range meOpts.MultiEndpoints {
